@@ -486,5 +486,43 @@ def _opt_truth(prog):
     return opt_truth(prog, ["symbol_graph.WrappedInstance"], 2)
 
 
+def owner_bound(prog: Program) -> RuleResult:
+    """A relation asserted through a managed collection is recorded for the *owner the collection is bound to* (a weak reference kept by the
+    collection).  The binding is refreshed on every access through the descriptor, so that a collection object that reaches a second instance
+    - copy.copy(symbol) shares the field values, a helper hands the list on - records for the instance it is read from, not for an instance
+    of the past (possibly collected: then nothing is recorded at all).  So: whenever the descriptor meets a monitored collection, it binds
+    it to the instance at hand unless it has established, by identity, that this instance is the owner already."""
+    from ..dtable import term
+
+    r = RuleResult("OWNER-BOUND", "a managed collection met through an instance is bound to that instance", floor=1)
+    pd = prog.cls("property_descriptor.PropertyDescriptor")
+    binders = [m for m in pd.methods.values() if any(call_name(c) == "_bind_owner" for c in calls_in(m.node))]
+    if not binders:
+        raise AnalysisError("OWNER-BOUND: no method of PropertyDescriptor binds a container to its owner")
+    for f in sorted(binders, key=lambda x: x.qual):
+        owner_params = [p for p in f.params if p in ("owner", "obj", "instance")]
+        if not owner_params:
+            raise AnalysisError(f"OWNER-BOUND: {f.short} has no owner parameter")
+        own = owner_params[0]
+        paths = explore(prog, f, [Sym(p) for p in f.params], max_paths=300, inline=lambda q: False)
+        bad = None
+        n_cont = 0
+        for v, o, calls in paths:
+            is_cont = any(k[0] == "isinstance" and "MonitoredContainer" in str(k[2]) and val is True for k, val in v.items() if isinstance(k, tuple))
+            guarded = [k for k in v if isinstance(k, tuple) and k[0] == "isinstance"]
+            if guarded and not is_cont:
+                continue
+            n_cont += 1
+            binds = any("_bind_owner(" in term(c) and own in term(c) for c in calls)
+            same = any(isinstance(k, tuple) and len(k) == 3 and k[0] == "is" and own in [x if isinstance(x, str) else term(x) for x in k[1:]] and val is True for k, val in v.items())
+            if not binds and not same:
+                bad = bad or v
+        r.check(n_cont > 0 and bad is None, f"{f.short}#bound-to-the-instance-at-hand", site(f), f"{n_cont} path(s) with a monitored collection",
+                "each binds the collection to the instance, or has established that the instance is its owner",
+                f"on the path {dict(bad) if bad else ''} a monitored collection passes without being bound to `{own}` and without `{own}` having been identified as its owner: a collection that was "
+                f"bound once keeps recording for that first instance (copy.copy(symbol).members.add(p): nothing recorded once the original is collected, or recorded for the original)")
+    return r
+
+
 def run(prog: Program, tier: str) -> List[RuleResult]:
-    return [guard(lambda: sg_coherence(prog)), guard(lambda: idkey(prog)), guard(lambda: rel_gate(prog)), guard(lambda: sg_purge_directions(prog)), guard(lambda: rel_live(prog)), guard(lambda: _sg_sweep(prog)), guard(lambda: _opt_truth(prog)), guard(lambda: rel_edges(prog)), guard(lambda: id_state(prog))]
+    return [guard(lambda: sg_coherence(prog)), guard(lambda: idkey(prog)), guard(lambda: rel_gate(prog)), guard(lambda: sg_purge_directions(prog)), guard(lambda: rel_live(prog)), guard(lambda: _sg_sweep(prog)), guard(lambda: _opt_truth(prog)), guard(lambda: rel_edges(prog)), guard(lambda: id_state(prog)), guard(lambda: owner_bound(prog))]
